@@ -4,5 +4,5 @@ From Gen Require Import Consts.
 From C03 Require Import Model.
 From C18 Require Import Model.
 Extraction "c18_model.ml" conv_anchor M_write_to M_write_loop_len M_cff_write_loop
-  budget_writer short_writer budget_lwriter short_lwriter lsummary wsummary cff_summary
+  budget_writer short_writer eager_writer budget_lwriter short_lwriter eager_lwriter lsummary wsummary cff_summary
   read_summary data_end M_write.
